@@ -206,6 +206,8 @@ class World:
         self.reads = reads           # observe the derived quantities after EVERY operation of the replay
         self.read_problems = []      # (position, site, name, observed dtype/exception, expected dtype)
         self.hedger = None           # the persistent hedger (see _hedge)
+        self.hedger2 = None
+        self.listed = None
         self._features = {}
         self.q = self.dq = None
         self.n_reads = 0
@@ -235,6 +237,10 @@ class World:
                 kw["engine"] = RandnSobolBoxMuller(scramble=True, seed=7)
             self.p = getattr(I, self.cfg["primary"])(dt=DT_STEP, cost=COST, **kw)
             self.d = _derivative(self.cfg["derivative"], self.p)
+            # a listed derivative on the same underlier (user pricer: a function of the underlier's spot), kept
+            # listed through the whole history: its price is read, and used as a hedge, between the operations
+            self.listed = _derivative(self.cfg["derivative"], self.p)
+            self.listed.list(_spot_pricer, cost=COST)
             # a second instrument of the same class that declares float32, and a derivative on it
             kwq = dict(PRIMARY_KW.get(self.cfg["primary"], {}))
             if self.cfg.get("engine"):
@@ -243,9 +249,9 @@ class World:
             self.dq = _derivative(self.cfg["derivative"], self.q)
             n = len(self.history) - 1
             full_reads = self.cfg.get("reads", "full") == "full"
-            # thorough: the persistent hedger hedges after every operation; quick: before and after the last one,
-            # unless the last one neither casts nor simulates
-            hedge_from = 1 if full_reads else max(1, n - 1)
+            # the persistent hedgers hedge before and after the last operation (quick: unless the last one neither
+            # casts nor simulates)
+            hedge_from = max(1, n - 1)          # the persistent hedgers: before and after the last operation
             if not full_reads and n >= 1:
                 last = self.history[n]
                 if last[0] == "q.share" or last[0].split(".")[-1] in NO_HEDGE or (
@@ -260,7 +266,7 @@ class World:
                 except Exception as e:  # noqa: BLE001 - judged against the automaton by the caller
                     self.events.append(e)
                 if self.reads and (full_reads or i >= n - 1):    # quick tier: before and after the last operation
-                    self._read(i)
+                    self._read(i, core=not full_reads or i < n - 1)   # thorough: full set around the last one
                     if i >= hedge_from and self.cfg.get("persistent_hedger", True):
                         self._hedge(i)
             self.default = NAME_OF[torch.get_default_dtype()]
@@ -294,8 +300,29 @@ class World:
         if out.dtype != want:
             self.read_problems.append((position, "Hedger.compute_hedge", "compute_hedge[persistent hedger]",
                                        NAME_OF.get(out.dtype, str(out.dtype)), NAME_OF.get(want, str(want))))
+        # a second persistent hedger trades the underlier AND the listed derivative
+        if self.hedger2 is None:
+            base = ["moneyness", "time_to_maturity"] if self.cfg["derivative"] in OPTION_KINDS \
+                else ["underlier_spot", "zeros"]
+            self.hedger2 = Hedger(_ParamFree2(), base + ["prev_hedge"])
+        try:
+            with torch.no_grad():
+                out = self.hedger2.compute_portfolio(self.d, hedge=[self.p, self.listed])
+        except HarnessError:
+            raise
+        except Exception as e:  # noqa: BLE001
+            if not is_backend_unsupported(e, want):
+                self.read_problems.append((position, "Hedger.compute_portfolio",
+                                           "compute_portfolio[persistent hedger, listed hedge]",
+                                           f"{type(e).__name__}: {str(e)[:120]}", NAME_OF.get(want, str(want))))
+            return
+        self.n_reads += 1
+        if out.dtype != want:
+            self.read_problems.append((position, "Hedger.compute_portfolio",
+                                       "compute_portfolio[persistent hedger, listed hedge]",
+                                       NAME_OF.get(out.dtype, str(out.dtype)), NAME_OF.get(want, str(want))))
 
-    def _read(self, position):
+    def _read(self, position, core=False):
         """Reads interleaved with the operations (a concrete object may remember what it handed out):
         volatility / variance properties of the primary, payoff, every applicable feature.  Each must be in
         the dtype the simulated series have at that moment."""
@@ -311,13 +338,24 @@ class World:
             items += [(prim + ".volatility", "volatility", lambda: p.volatility),
                       (prim + ".variance", "variance", lambda: p.variance)]
         items.append(("derivative(" + self.cfg["derivative"] + ").payoff", "payoff", lambda: d.payoff()))
+        items.append(("derivative(" + self.cfg["derivative"] + ").spot", "listed_price", lambda: self.listed.spot))
         names = _feature_names(self.cfg, False)
-        if self.cfg.get("reads", "full") == "core":      # quick tier: the features that read derived series
+        if core:      # the features that read derived series
             names = [n for n in names if n in ("volatility", "variance", "underlier_spot", "time_to_maturity")]
         for name in names:
             if name not in self._features:
                 self._features[name] = get_feature(name).of(d)
             items.append(("features." + name, name + ".get(None)", lambda f=self._features[name]: f.get(None)))
+        if "spot" not in self._features:
+            from pfhedge.features import Barrier
+            self._features["spot"] = get_feature("spot").of(self.listed)
+            self._features["barrier_down"] = Barrier(1.0, up=False).of(d)
+            self._features["barrier_up"] = Barrier(1.0, up=True).of(d)
+        items.append(("features.spot", "spot.get(None)[listed]", lambda: self._features["spot"].get(None)))
+        for bn in (("barrier_down",) if core else ("barrier_down", "barrier_up")):
+            items.append(("features.Barrier", bn + ".get(1)", lambda bn=bn: self._features[bn].get(1)))
+            if not core:
+                items.append(("features.Barrier", bn + ".get(None)", lambda bn=bn: self._features[bn].get(None)))
         qb = dict(self.q.named_buffers())
         with torch.no_grad():
             if "spot" in qb:        # the second instrument: what is computed from it is in ITS declared dtype
@@ -502,7 +540,7 @@ def check_transition(ctx, cfg, hist, op, after, dead):
     # reads interleaved with the replay: what is handed out after this operation has the series' dtype
     for pos, rsite, name, got, want in after.read_problems:
         if pos == len(full) - 1:
-            ctx.violation(rsite, f"stale_read:{name}:{got}_expected_{want}_after_{op[0]}",
+            ctx.violation(rsite, f"stale_read:{name}:{got.split(':')[0]}_expected_{want}_after_{op[0]}",
                           f"{name} read after {_opname(op)} is {got}, the simulated series are {want} (the same "
                           f"quantities were read after every earlier operation of the history); history {full}",
                           observed=got, expected=want, block=block, family="dtype_history")
@@ -552,6 +590,19 @@ def _feature_names(cfg, listed):
     if listed:
         names += ["spot"]
     return names
+
+
+def _spot_pricer(derivative):
+    spot = derivative.ul().spot
+    return torch.nn.functional.relu(spot - 1.0) + 0.5 * spot
+
+
+class _ParamFree2(torch.nn.Module):
+    """Parameter-free model for two hedging instruments."""
+
+    def forward(self, x):
+        a = 0.5 * x[..., :1] + 0.25 * x[..., -1:]
+        return torch.cat([a, -a], dim=-1)
 
 
 def _bs_pricer():
@@ -637,11 +688,18 @@ def check_state(ctx, cfg, history, world, level):
             query("features." + name, name + ".get(0)", lambda f=f: f.get(0), D)
         if listed:
             d.delist()
+        from pfhedge.features import Barrier
+        for up in (False, True):
+            f = Barrier(1.0, up=up).of(d)
+            for t in (None, 0, 1, 2):
+                query("features.Barrier", f"Barrier(up={up}).get({t})", lambda f=f, t=t: f.get(t), D)
         if cfg["derivative"] in OPTION_KINDS:
             base = ["moneyness", "time_to_maturity"]
         else:
             base = ["underlier_spot", "zeros"]
-        variants = [("linear", base, len(base))]
+        variants = [("linear", base, len(base)),
+                    # stepwise hedger fed with a down-barrier indicator
+                    ("barrier_prev", base + [Barrier(1.0, up=False), "prev_hedge"], len(base) + 2)]
         if level == "full":
             variants.append(("linear_prev", base + ["prev_hedge"], len(base) + 1))
         # first everything that reads the present series, then the calls that simulate again
@@ -1016,13 +1074,25 @@ def run(ctx):
         for b in blocks:
             ctx.run("dtype_bfs", b)
     else:
-        for prim in primaries:
-            for der in DERIVATIVES:
-                if der in PUTS and prim not in ("BrownianStock", "HestonStock"):
-                    continue      # the payoff functions do not depend on the primary class
+        nonput = [k for k in DERIVATIVES if k not in PUTS]
+        for i, prim in enumerate(primaries):
+            # every primary class with three derivative classes (each derivative class with four primaries; the
+            # payoff / feature code does not depend on the primary class, the simulation code not on the derivative),
+            # the put variants with two primaries, european also from the float64 global default
+            kinds = [nonput[(i + j) % len(nonput)] for j in (0, 2, 4)]
+            if "european" not in kinds:
+                kinds.append("european@float64only")
+            if prim in ("BrownianStock", "HestonStock"):
+                kinds += list(PUTS)
+            for der in kinds:
                 for default0 in ("float32", "float64"):
-                    if default0 == "float64" and der not in ("european", "variance_swap"):
+                    if der.endswith("@float64only"):
+                        if default0 == "float32":
+                            continue
+                    elif default0 == "float64" and der != "european":
                         continue
+                    der_ = der.split("@")[0]
+                    der = der_
                     blocks.append({"primary": prim, "derivative": der, "default0": default0, "ctors": CTORS,
                                    "ops": "full", "queries": "full", "queries_per": "state"})
         for i, prim in enumerate(primaries):
